@@ -17,7 +17,7 @@ Fixpoint texts_prog (texts : list string) (acc : list V) : @prog V A :=
 Definition norm (ts : @tstate V A) : @tstate V A := match ts with TRun (Ret a) => TDone a | _ => ts end.
 
 Definition cstep (maxc : Z) (star : bool) (cfg : list (@tstate V A) * caches) (i : nat) : list (@tstate V A) * caches :=
-  let '(ths, c) := sched_step TEval.from_text maxc star cfg i in
+  let '(ths, c) := sched_step TEval.from_text maxc star true (fun _ => true) cfg i in
   (match nth_error ths i with Some ts => set_nth i (norm ts) ths | None => ths end, c).
 
 Fixpoint cfinish (fuel : nat) (maxc : Z) (star : bool) (cfg : list (@tstate V A) * caches) (i : nat) : list (@tstate V A) * caches :=
@@ -56,3 +56,50 @@ Definition sc_check (c : scase) : bool :=
 
 Definition sc_model (c : scase) : list (option (list (string * list string))) * list string :=
   let '(ths, fin) := sc_run c in (map obs_of ths, map fst (sel (sc_star c) fin)).
+
+(* ---------- the registry memo: get_handler(op, obj) under the same scheduler ---------- *)
+Definition RV := option string.        (* the handler's tag, None: UnregisteredTarget *)
+Definition RA := list RV.
+Fixpoint keys_prog (keys : list string) (acc : list RV) : @prog RV RA :=
+  match keys with [] => Ret (rev acc) | k :: r => Ask k (fun v => keys_prog r (v :: acc)) end.
+Definition rnorm (ts : @tstate RV RA) : @tstate RV RA := match ts with TRun (Ret a) => TDone a | _ => ts end.
+Definition rstorable (v : RV) : bool := match v with Some _ => true | None => false end.
+
+Record rcase := mkRC { rc_answers : list (string * RV);                 (* what a registry that was never looked at answers *)
+                       rc_threads : list (list string); rc_schedule : list nat;
+                       rc_seen : list (list RV); rc_keys : list string }.
+
+Definition rcreate (answers : list (string * RV)) (_ : bool) (k : string) : RV :=
+  match str_assoc k answers with Some v => v | None => None end.
+
+Definition rstep (answers : list (string * RV)) (cfg : list (@tstate RV RA) * caches) (i : nat) : list (@tstate RV RA) * caches :=
+  let '(ths, c) := sched_step (rcreate answers) 0 true false rstorable cfg i in
+  (match nth_error ths i with Some ts => set_nth i (rnorm ts) ths | None => ths end, c).
+Fixpoint rfinish (fuel : nat) (answers : list (string * RV)) (cfg : list (@tstate RV RA) * caches) (i : nat) : list (@tstate RV RA) * caches :=
+  match fuel with
+  | O => cfg
+  | S fuel => match nth_error (fst cfg) i with
+              | Some (TDone _) | Some TKeyError | None => cfg
+              | Some _ => rfinish fuel answers (rstep answers cfg i) i end end.
+
+Definition rc_run (c : rcase) : list (@tstate RV RA) * caches :=
+  let ths := map (fun keys => rnorm (TRun (keys_prog keys []))) (rc_threads c) in
+  let cfg := fold_left (rstep (rc_answers c)) (rc_schedule c) (ths, empty) in
+  fold_left (rfinish 400 (rc_answers c)) (seq 0 (List.length ths)) cfg.
+
+Definition rv_eqb (a b : RV) : bool := match a, b with Some x, Some y => String.eqb x y | None, None => true | _, _ => false end.
+Fixpoint rvs_eqb (a b : list RV) : bool := match a, b with [], [] => true | x :: a, y :: b => rv_eqb x y && rvs_eqb a b | _, _ => false end.
+Fixpoint all_rv (ths : list (@tstate RV RA)) (seen : list (list RV)) : bool :=
+  match ths, seen with
+  | [], [] => true
+  | TDone a :: r, o :: r' => rvs_eqb a o && all_rv r r'
+  | _, _ => false end.
+
+Definition rc_check (c : rcase) : bool :=
+  let '(ths, fin) := rc_run c in all_rv ths (rc_seen c) && Corr.Cache.strs_eqb (map fst (c_star fin)) (rc_keys c).
+
+(* one entry point for the generated case files *)
+Inductive anycase := APath (c : scase) | AReg (c : rcase).
+Definition any_check (c : anycase) : bool := match c with APath x => sc_check x | AReg x => rc_check x end.
+Definition any_model (c : anycase) : list string :=
+  match c with APath x => snd (sc_model x) | AReg x => map fst (c_star (snd (rc_run x))) end.
